@@ -580,6 +580,10 @@ class SpecGen:
             node["options"] = self.preset()
         if cfg["default_presets"] and r.random() < 0.3:
             node["default_options"] = self.preset()
+            if cfg.get("deep_default_section") and r.random() < 0.5:
+                # a default SECTION three levels down, at a path where callers put a plain value (nobody reads it: only the
+                # bookkeeping of which caller keys shadow a default section sees it)
+                node["default_options"]["K9"] = {"W": {"Z": {"x": 1}}}
         if cfg["callbacks"] and r.random() < 0.3 and not selector:
             node["callback"] = True
             if cfg.get("stateful_callables") and r.random() < 0.5:
